@@ -9,6 +9,7 @@ import (
 
 	"github.com/marekgalovic/anndb/index/space"
 	"github.com/marekgalovic/anndb/math"
+	"github.com/marekgalovic/anndb/utils"
 
 	uuid "github.com/satori/go.uuid"
 )
@@ -125,12 +126,27 @@ func (this *Hnsw) Save(w io.Writer, header bool) error {
 }
 
 func (this *Hnsw) reset() {
+	var empty [VERTICES_MAP_SHARD_COUNT]map[uuid.UUID]*hnswVertex
+	this.replaceContents(empty, 0, 0, nil)
+}
+
+// replaceContents publishes loaded contents. A replica keeps answering Get and
+// Search while it installs a snapshot, so the shard maps are refilled under
+// their locks and nothing a reader can reach is written outside of them.
+func (this *Hnsw) replaceContents(vertices [VERTICES_MAP_SHARD_COUNT]map[uuid.UUID]*hnswVertex, count uint64, bytesSize uint64, entrypoint *hnswVertex) {
 	for i, _ := range this.vertices {
-		this.vertices[i] = make(map[uuid.UUID]*hnswVertex)
+		this.verticesMu[i].Lock()
+		for id, _ := range this.vertices[i] {
+			delete(this.vertices[i], id)
+		}
+		for id, vertex := range vertices[i] {
+			this.vertices[i][id] = vertex
+		}
+		this.verticesMu[i].Unlock()
 	}
-	atomic.StoreUint64(&this.len, 0)
-	atomic.StoreUint64(&this.bytesSize, 0)
-	atomic.StorePointer(&this.entrypoint, nil)
+	atomic.StoreUint64(&this.len, count)
+	atomic.StoreUint64(&this.bytesSize, bytesSize)
+	atomic.StorePointer(&this.entrypoint, unsafe.Pointer(entrypoint))
 }
 
 func (this *Hnsw) Load(r io.Reader, header bool) error {
@@ -172,19 +188,19 @@ func (this *Hnsw) Load(r io.Reader, header bool) error {
 		return err
 	}
 
-	this.len = 0
-	this.bytesSize = 0
-	// Load vertices
+	// Load vertices aside: readers keep seeing the current contents until the end
+	var count, bytesSize uint64
+	var vertices [VERTICES_MAP_SHARD_COUNT]map[uuid.UUID]*hnswVertex
 	var shardSize uint32
 	var vertex *hnswVertex
-	for i, _ := range this.vertices {
+	for i, _ := range vertices {
 		if err := binary.Read(r, binary.BigEndian, &shardSize); err != nil {
 			return err
 		}
-		this.len += uint64(shardSize)
+		count += uint64(shardSize)
 
-		this.vertices[i] = make(map[uuid.UUID]*hnswVertex, int(shardSize))
-		verticesShard := this.vertices[i]
+		vertices[i] = make(map[uuid.UUID]*hnswVertex, int(shardSize))
+		verticesShard := vertices[i]
 
 		for i := 0; i < int(shardSize); i++ {
 			if _, err := io.ReadFull(r, uuidBuf); err != nil {
@@ -209,17 +225,17 @@ func (this *Hnsw) Load(r io.Reader, header bool) error {
 			}
 
 			vertex = newHnswVertex(id, vector, metadata, int(level))
-			this.bytesSize += vertex.bytesSize()
+			bytesSize += vertex.bytesSize()
 			verticesShard[id] = vertex
 		}
 	}
 
-	// Set entrypoint
-	s, _ := this.getVerticesShard(entrypointId)
-	atomic.StorePointer(&this.entrypoint, unsafe.Pointer(s[entrypointId]))
+	shardOf := func(id uuid.UUID) map[uuid.UUID]*hnswVertex {
+		return vertices[utils.UuidMod(id, uint64(VERTICES_MAP_SHARD_COUNT))]
+	}
 
 	// Load edges
-	for _, verticesShard := range this.vertices {
+	for _, verticesShard := range vertices {
 		for i := 0; i < len(verticesShard); i++ {
 			if _, err := io.ReadFull(r, uuidBuf); err != nil {
 				return err
@@ -245,12 +261,12 @@ func (this *Hnsw) Load(r io.Reader, header bool) error {
 					if err := binary.Read(r, binary.BigEndian, &distance); err != nil {
 						return err
 					}
-					s, _ = this.getVerticesShard(neighborId)
-					vertex.edges[l][s[neighborId]] = distance
+					vertex.edges[l][shardOf(neighborId)[neighborId]] = distance
 				}
 			}
 		}
 	}
 
+	this.replaceContents(vertices, count, bytesSize, shardOf(entrypointId)[entrypointId])
 	return nil
 }
